@@ -27,7 +27,7 @@ def _worker(args):
         limits = getattr(vc, "limits", {}).get(tier, {})
         r = run_vc(prog, M, vc, bounds=getattr(vc, "bounds", {}).get(tier) if isinstance(getattr(vc, "bounds", None), dict) else None,
                    path_limit=limits.get("paths", 200000), query_timeout_ms=limits.get("query_ms", 20000 if tier == "quick" else 120000),
-                   time_limit=limits.get("time", None), validate=int(os.environ.get("VERIF_VALIDATE", "2" if tier == "quick" else "10")),
+                   time_limit=limits.get("time", int(os.environ.get("VERIF_VC_SECONDS", "900" if tier == "quick" else "2700"))), validate=int(os.environ.get("VERIF_VALIDATE", "2" if tier == "quick" else "10")),
                    second_solver=(tier == "thorough" and getattr(spec, "SECOND_SOLVER", False)))
         out = {
             "vc": vc.name, "paths": r.paths, "infeasible": r.infeasible, "outcomes": {str(k): v for k, v in r.outcomes.items()},
